@@ -4,6 +4,7 @@ import (
 	"fmt"
 	"github.com/LemoFoundationLtd/lemochain-core/common"
 	"github.com/LemoFoundationLtd/lemochain-core/common/log"
+	"github.com/LemoFoundationLtd/lemochain-core/common/verifhook"
 	"github.com/LemoFoundationLtd/lemochain-core/store/leveldb"
 	"io"
 	"os"
@@ -176,13 +177,16 @@ func (queue *FileQueue) emptyFile(path string) {
 	defer queue.IndexRW.Unlock()
 
 	if len(queue.Index) <= 0 {
+		verifhook.Point("queue:before-remove")
 		err := os.Remove(path)
 		log.Infof("del file: %s", path)
 		if err != nil {
 			log.Errorf("del file: %s err", path)
 		} else {
+			verifhook.Point("queue:between-remove-and-create")
 			FileUtilsCreateFile(path)
 			queue.Offset = 0
+			verifhook.Point("queue:after-create")
 		}
 	}
 }
